@@ -23,6 +23,7 @@ CLAIMS = {
     "C13": ("5.C13", "flush (1-3 overlapping) at every boundary of runs with tasks ending, being cancelled and held in slow callbacks; forget-state interval model (must-know / may-forget / must-forget)."),
     "C14": ("5.C14", "stop(n)/stop_all on SimpleTaskPool histories with gaps; returned ids vs ledger, exactly those workers observe one cancellation."),
     "C15": ("5.C15", "Directed family over (class, old size, new size, running, waiting) x seeded timing: getter vs configured maximum, limit in force after assignment, wake-up of waiting spawners, negative values. Reports the recorded finding F-SIZE; every other oracle is strict."),
+    "C20": ("5.C20", "Real Queue on the simulated loop with gated consumer bodies, joiners and bounded queues; join() completion vs the harness count of exited blocks, qsize after every handle; consumer cancellation placed at every handle boundary (pairs on short runs)."),
 }
 
 NOT_YET = {}
@@ -54,6 +55,8 @@ def build():
         "engines": [
             {"name": "tpsim-pool", "path": "tpsim/pool_engine.py", "serves_properties": [p for p in sorted(CLAIMS) if int(p[1:]) <= 15],
              "kind_free_text": "deterministic simulation: real pool code on SimLoop with harness-owned user code"},
+            {"name": "tpsim-queue", "path": "tpsim/queue_engine.py", "serves_properties": [p for p in sorted(CLAIMS) if int(p[1:]) == 20],
+             "kind_free_text": "deterministic simulation: real Queue on SimLoop with harness-owned producers/consumers"},
         ],
         "checks": checks,
         "not_applicable": na,
